@@ -2,6 +2,8 @@
 use crate::engine::{Plan, Tier};
 
 pub mod c01;
+pub mod c04;
+pub mod c05;
 pub mod c06;
 pub mod c08;
 pub mod c09;
@@ -19,6 +21,8 @@ pub const ALL: &[&str] = &[
 pub fn plan(id: &str, tier: Tier) -> Option<Plan> {
     match id {
         "C01" => Some(c01::plan(tier)),
+        "C04" => Some(c04::plan(tier)),
+        "C05" => Some(c05::plan(tier)),
         "C06" => Some(c06::plan(tier)),
         "C08" => Some(c08::plan(tier)),
         "C09" => Some(c09::plan(tier)),
